@@ -86,6 +86,13 @@ class Types(object):
                 for it in node.items:
                     if isinstance(it.optional_vars, ast.Name):
                         out.setdefault(it.optional_vars.id, []).append(it.context_expr)
+            elif isinstance(node, ast.For):
+                # for x in <iterable> / for (i, x) in enumerate(<iterable>): x is an element of the iterable
+                tgt, itx = node.target, node.iter
+                if isinstance(itx, ast.Call) and isinstance(itx.func, ast.Name) and itx.func.id == "enumerate" and itx.args and isinstance(tgt, ast.Tuple) and len(tgt.elts) == 2:
+                    tgt, itx = tgt.elts[1], itx.args[0]
+                if isinstance(tgt, ast.Name):
+                    out.setdefault(tgt.id, []).append(ast.Subscript(value=itx, slice=ast.Constant(value=0), ctx=ast.Load()))
         return out
 
     def static_type(self, expr, fi, locals_=None, depth=0):
@@ -184,6 +191,29 @@ class Types(object):
                 for c in ci.mro():
                     if isinstance(c, ClassInfo):
                         out |= self.field_types.get((c.key, attr), set())
+            return out
+        if isinstance(expr, ast.Subscript) and not isinstance(expr.slice, ast.Slice):
+            # an element of a container field whose element classes are known
+            base = expr.value
+            for _ in range(4):
+                if isinstance(base, ast.Subscript) and isinstance(base.slice, ast.Slice):
+                    base = base.value  # xs[:]
+                elif isinstance(base, ast.Call) and isinstance(base.func, ast.Name) and base.func.id in ("list", "tuple", "sorted", "reversed", "iter") and base.args:
+                    base = base.args[0]
+                elif isinstance(base, ast.Call) and isinstance(base.func, ast.Attribute) and base.func.attr in ("copy", "keys", "values") and not base.args:
+                    base = base.func.value
+                else:
+                    break
+            out = set()
+            if isinstance(base, ast.Attribute):
+                attr = mangle(fi.cls.name if fi.cls else None, base.attr)
+                for t in self.static_type(base.value, fi, locals_, depth + 1):
+                    ci = self.cls_of(t)
+                    if ci is None:
+                        continue
+                    for c in ci.mro():
+                        if isinstance(c, ClassInfo):
+                            out |= self.elem_types.get((c.key, attr), set())
             return out
         if isinstance(expr, ast.BoolOp):
             out = set()
